@@ -560,14 +560,17 @@ class Config:
             return []
         saved = path.prog_temps
         path.prog_temps = []
+        n0 = len(path.pc)
         try:
             out = self.as_clause_list(path, self.spec_eval(path, fn, env))
         finally:
             temps = path.prog_temps
             path.prog_temps = saved
             if temps:
+                # only the temporary hypotheses added during this evaluation: an earlier, genuine path-condition entry may be
+                # the very same term object (a clause that is just a boolean the code branched on)
                 ids = {id(t) for t in temps}
-                path.pc = [p for p in path.pc if id(p) not in ids]
+                path.pc = path.pc[:n0] + [p for p in path.pc[n0:] if id(p) not in ids]
         return out
 
     def as_clause_list(self, path, v):
